@@ -77,8 +77,10 @@ class BaseModel(SolverMixin, ModelInterface):
             **initial_values,
         )
 
-        self.add_attribute('endogenous', self.ENDOGENOUS)
-        self.add_attribute('check', self.CHECK)
+        # Copy the class-level lists: instances mustn't share (and be able to
+        # alter) the class's own lists
+        self.add_attribute('endogenous', list(self.ENDOGENOUS))
+        self.add_attribute('check', list(self.CHECK))
 
         self.add_attribute('engine', engine)
 
